@@ -390,6 +390,13 @@ def run(ctx):
                 for k in ('and', 'or'):
                     progs.append((pretty((k, [lit(a), lit(b)])), (k, [lit(a), lit(b)])))
                     progs.append((pretty((k, [lit(('b', k == 'and')), lit(a), lit(b)])), (k, [lit(('b', k == 'and')), lit(a), lit(b)])))
+        # ---------------- every comparison operator on every ordered pair of a mixed int / decimal pool (either kind on either side)
+        grid = [('i', x) for x in (0, 1, 2, 9, 10, -3, -5, 100, 2 ** 53 + 1, 2 ** 64)] + [('d', x) for x in (0.5, 2.5, 9.5, 10.0, -3.0, -4.5, 100.25, 18446744073709551616.0, 2.0)]
+        for a in grid:
+            for b in grid:
+                for op in ("<", "<=", ">", ">=", "==", "!="):
+                    t = ('cmp', [lit(a), lit(b)], [op])
+                    progs.append((pretty(t), t))
         ctx.exhaustive = False
         reqs = []
         for src, t in progs:
